@@ -35,6 +35,10 @@ pub struct Config {
     pub str_slice: bool,
     /// R-iter: `X.iter().all(f)` / `.any(f)` => vx_slice_all(X.as_slice(), f) / vx_slice_any(..)
     pub iter_rules: bool,
+    /// add `Structural` to derives of field-less enums (default true)
+    pub structural: bool,
+    /// R-freefn: trait impls on foreign types emitted as free functions: impl selector => fn name
+    pub free_fn_impls: BTreeMap<String, String>,
 }
 
 impl Config {
@@ -81,6 +85,12 @@ impl Config {
         }
         c.str_slice = u["str_slice"].as_bool().unwrap_or(false);
         c.iter_rules = u["iter_rules"].as_bool().unwrap_or(false);
+        c.structural = u["structural"].as_bool().unwrap_or(true);
+        if let Some(m) = u["free_fn_impls"].as_object() {
+            for (k, v) in m {
+                c.free_fn_impls.insert(norm(k), v.as_str().unwrap().to_string());
+            }
+        }
         c.keep_derives = match u["keep_derives"].as_array() {
             Some(a) => a.iter().map(|v| v.as_str().unwrap().to_string()).collect(),
             None => vec!["Clone".into(), "Copy".into(), "PartialEq".into(), "Eq".into()],
@@ -141,7 +151,7 @@ pub fn filter_attrs(attrs: &mut Vec<syn::Attribute>, cfg: &Config, fieldless_enu
                     }
                     Ok(())
                 });
-                if fieldless_enum && keep.iter().any(|k| k == "PartialEq") {
+                if cfg.structural && fieldless_enum && keep.iter().any(|k| k == "PartialEq") && keep.iter().any(|k| k == "Eq") {
                     keep.push("Structural".to_string());
                     fire(fired, "R-derive-structural");
                 }
@@ -424,7 +434,8 @@ impl<'a> Rewriter<'a> {
         }
         let chain = acc?;
         fire(self.fired, "R-strmatch");
-        Some(parse_quote!({ let #tmp = #scrut; #chain }))
+        // a single-arm match (not a `let`) keeps temporaries of the scrutinee alive, as the original match does
+        Some(parse_quote!(match #scrut { #tmp => #chain }))
     }
 }
 
